@@ -31,7 +31,9 @@ meta = {'property': prop, 'label': label, 'demo_cmd': ' '.join(demo), 'confirmed
 r = sh('git apply SEED/demo.diff')
 meta['demo_applies'] = r.returncode == 0
 r = sh(demo)
-meta['demo_passes_without_change'] = r.returncode == 0
+m0 = re.findall(r'test result: (\w+)\. (\d+) passed; (\d+) failed', r.stdout)
+meta['demo_tests_run_without_change'] = sum(int(x[1]) for x in m0)
+meta['demo_passes_without_change'] = r.returncode == 0 and meta['demo_tests_run_without_change'] > 0
 r = sh('git apply SEED/patch.diff')
 meta['patch_applies'] = r.returncode == 0
 r = sh(demo)
